@@ -30,6 +30,7 @@ import (
 	"github.com/lugu/qiloop/bus"
 	"github.com/lugu/qiloop/bus/directory"
 	"github.com/lugu/qiloop/bus/util"
+	"github.com/lugu/qiloop/type/object"
 	"qv/internal/c15skel"
 	"qv/internal/hx"
 )
@@ -480,11 +481,36 @@ var seqNames = []string{"a", "b", "c"}
 var seqNameVariants = []string{"a ", " a", "A", "b ", "B"}
 var seqNamesAll = append(append([]string{}, seqNames...), seqNameVariants...)
 
+// addresses a remote service may announce (public, local socket, loopback)
+var seqEndpoints = []string{"tcp://198.18.0.7:9559", "unix:///nonexistent/qv-c15.sock", "tcp://127.0.0.1:1", "tcp://198.18.0.9:9559"}
+
 func genInfo(rng *hx.Rng, name string, id uint32) dInfo {
 	i := dInfo{Name: name, ID: id, Machine: "m", Pid: uint32(1 + rng.Intn(3)), Endpoints: []string{"e"}}
-	switch rng.Intn(6) {
+	switch rng.Intn(8) {
 	case 0:
 		i.Endpoints = []string{"e", "f"}
+	case 6, 7:
+		// what a service on another machine announces: 2..3 addresses in any order (public
+		// address first, local socket first, ...); none of them can be connected from here
+		// (198.18.0.x is refused by SelectEndPoint, the socket does not exist, port 1 is closed)
+		n := 2 + rng.Intn(2)
+		perm := []int{0, 1, 2, 3}
+		for a := len(perm) - 1; a > 0; a-- {
+			b := rng.Intn(a + 1)
+			perm[a], perm[b] = perm[b], perm[a]
+		}
+		i.Endpoints = nil
+		dialled := false
+		for _, k := range perm[:n] {
+			i.Endpoints = append(i.Endpoints, seqEndpoints[k])
+			dialled = dialled || !strings.Contains(seqEndpoints[k], "198.18.0")
+		}
+		if !dialled {
+			// bus.SelectEndPoint returns (nil channel, nil error) when it skipped every address
+			// (all in 198.18.0.x) and directorySession.client then crashes in bus.NewClient(nil):
+			// not this property's subject; every list keeps one address that is really dialled
+			i.Endpoints[rng.Intn(n)] = seqEndpoints[1+rng.Intn(2)]
+		}
 	case 1:
 		i.Session = "s"
 	case 2:
@@ -521,6 +547,48 @@ type seqStep struct {
 	broken bool // one subscriber's connection is broken during this call: the signal helper delivers to the healthy one and returns a write error
 	res    dRes
 	evs    []dEvent
+	// a user of the records the directory hands out, after the call returned: the hosting
+	// server's own session creates a proxy ("proxy:<name>") or an object ("object:<id>") of a
+	// service — directorySession looks the record up and hands it to bus.SelectEndPoint.  Not a
+	// directory operation: the model has no step for it, the registry must not change.
+	use string
+}
+
+// stubServer: what directorySession needs of the hosting server (the same-process bypass asks
+// it for a direct client); the client answers every call with an error
+type stubServer struct{}
+
+func (stubServer) NewService(name string, object bus.Actor) (bus.Service, error) {
+	return nil, fmt.Errorf("stub server")
+}
+func (stubServer) Session() bus.Session      { return nil }
+func (stubServer) Terminate() error          { return nil }
+func (stubServer) WaitTerminate() chan error { return nil }
+func (stubServer) Client() bus.Client        { return stubClient{} }
+
+type stubClient struct{}
+
+func (stubClient) Call(cancel <-chan struct{}, serviceID, objectID, methodID uint32, payload []byte) ([]byte, error) {
+	return nil, fmt.Errorf("stub client")
+}
+func (stubClient) Subscribe(serviceID, objectID, actionID uint32) (func(), chan []byte, error) {
+	return nil, nil, fmt.Errorf("stub client")
+}
+func (stubClient) OnDisconnect(cb func(error)) error      { return nil }
+func (stubClient) State(signal string, increment int) int { return 0 }
+func (stubClient) Channel() bus.Channel                   { return nil }
+
+// useRecord: the local session of the hosting server contacts a service (the connection need
+// not succeed: the addresses of the sequences are unreachable)
+func (s *seqDir) useRecord(use string) {
+	sess := s.ns.Session(stubServer{})
+	switch {
+	case strings.HasPrefix(use, "proxy:"):
+		sess.Proxy(strings.TrimPrefix(use, "proxy:"), 1)
+	case strings.HasPrefix(use, "object:"):
+		id, _ := strconv.ParseUint(strings.TrimPrefix(use, "object:"), 10, 32)
+		sess.Object(object.ObjectReference{ServiceID: uint32(id), ObjectID: 1})
+	}
 }
 
 func genSeqOp(rng *hx.Rng, known []uint32, names map[uint32]string, visible, stagedSet map[uint32]bool, last uint32) (dOp, bool, string) {
@@ -632,12 +700,13 @@ type seqJudge struct {
 	staged   map[uint32]bool
 	wasReady map[uint32]bool     // unregistered after having been ready
 	emitted  map[uint32][]dEvent // every signal handed to the helper so far, per id
+	recs     map[uint32]dInfo    // the record register / the last accepted update put under an id
 	failures [][2]string
 }
 
 func newSeqJudge(last0 uint32) *seqJudge {
 	return &seqJudge{lastReg: int64(last0), names: map[uint32]string{}, visible: map[uint32]bool{}, staged: map[uint32]bool{},
-		wasReady: map[uint32]bool{}, emitted: map[uint32][]dEvent{}}
+		wasReady: map[uint32]bool{}, emitted: map[uint32][]dEvent{}, recs: map[uint32]dInfo{}}
 }
 
 func (j *seqJudge) fail(clause, detail string) {
@@ -657,6 +726,15 @@ func (j *seqJudge) step(s *seqDir, st seqStep, before map[uint32]string) {
 		j.lastReg = int64(r.ID)
 		j.names[r.ID] = o.Info.Name
 		j.staged[r.ID] = true
+		rec := o.Info
+		rec.ID = r.ID
+		rec.Endpoints = append([]string{}, o.Info.Endpoints...)
+		j.recs[r.ID] = rec
+	}
+	if o.Kind == opUpdate && r.Kind == rOk {
+		rec := o.Info
+		rec.Endpoints = append([]string{}, o.Info.Endpoints...)
+		j.recs[o.Info.ID] = rec
 	}
 	// (5) signals: exactly one per transition
 	var want []dEvent
@@ -716,6 +794,17 @@ func (j *seqJudge) step(s *seqDir, st seqStep, before map[uint32]string) {
 		}
 		seen[i.Name] = i.ID
 	}
+	// (2') a record only changes through register / an accepted update: what the registry
+	// holds, field by field (the order of the endpoints included), is what those calls stored
+	useMark := ""
+	if st.use != "" {
+		useMark = " [then the server's local session: " + st.use + "]"
+	}
+	for _, i := range append(append([]dInfo{}, stg...), svc...) {
+		if want, ok := j.recs[i.ID]; ok && j.names[i.ID] == i.Name && !infoEq(i, want) {
+			j.fail("record-integrity", fmt.Sprintf("after %v%s the registry holds %v under id %d; register/update stored %v", o, useMark, i, i.ID, want))
+		}
+	}
 	// (3) visible to lookup and list exactly from ready until unregister
 	var vis []uint32
 	for id := range j.visible {
@@ -740,6 +829,9 @@ func (j *seqJudge) step(s *seqDir, st seqStep, before map[uint32]string) {
 				want = true
 				if found && i.ServiceId != id {
 					j.fail("visibility", fmt.Sprintf("service(%q) returned id %d, the ready entry of that name is %d", n, i.ServiceId, id))
+				}
+				if rec, ok := j.recs[id]; found && ok && i.ServiceId == id && !infoEq(toInfo(i), rec) {
+					j.fail("record-integrity", fmt.Sprintf("after %v%s service(%q) returns %v; register/update stored %v", o, useMark, n, toInfo(i), rec))
 				}
 			}
 		}
@@ -794,6 +886,7 @@ func runSeq(rng *hx.Rng, last0 uint32, length int, fixed []seqStep, faultMode in
 	s := newSeqDir(last0)
 	j = newSeqJudge(last0)
 	var known []uint32
+	users := fixed == nil && rng.Chance(0.4) // sequences in which the server's local session uses the records
 	n := length
 	if fixed != nil {
 		n = len(fixed)
@@ -802,9 +895,10 @@ func runSeq(rng *hx.Rng, last0 uint32, length int, fixed []seqStep, faultMode in
 		_, _, last := s.vd.State()
 		var o dOp
 		var via, broken bool
+		use := ""
 		kind := "fixed"
 		if fixed != nil {
-			o, via, broken = fixed[k].op, fixed[k].viaNS, fixed[k].broken
+			o, via, broken, use = fixed[k].op, fixed[k].viaNS, fixed[k].broken, fixed[k].use
 		} else {
 			o, via, kind = genSeqOp(rng, known, j.names, j.visible, j.staged, last)
 			switch faultMode {
@@ -817,12 +911,26 @@ func runSeq(rng *hx.Rng, last0 uint32, length int, fixed []seqStep, faultMode in
 		stg0, svc0, _ := s.state()
 		before := idNames(stg0, svc0)
 		r, evs := s.apply(o, via, broken)
-		st := seqStep{o, via, broken, r, evs}
 		if o.Kind == opRegister && r.Kind == rID {
 			known = append(known, r.ID)
 			if last == 0xffffffff {
 				wrapped = true
 			}
+		}
+		if fixed == nil && users && len(known) > 0 && rng.Chance(0.3) {
+			// a user of the records: proxy by name / object by id of a service handed out so far
+			id := known[rng.Intn(len(known))]
+			if n, ok := j.names[id]; ok && rng.Bool() {
+				use = "proxy:" + n
+			} else if o.Kind == opRegister && r.Kind == rID && rng.Bool() {
+				use = "proxy:" + o.Info.Name
+			} else {
+				use = fmt.Sprintf("object:%d", id)
+			}
+		}
+		st := seqStep{o, via, broken, r, evs, use}
+		if use != "" {
+			s.useRecord(use)
 		}
 		j.step(s, st, before)
 		steps = append(steps, st)
@@ -850,6 +958,9 @@ func seqText(steps []seqStep) string {
 		}
 		if len(st.evs) > 0 {
 			b.WriteString(" " + evTerms(st.evs))
+		}
+		if st.use != "" {
+			b.WriteString(" [server.Session() " + st.use + "]")
 		}
 	}
 	return b.String()
@@ -1025,6 +1136,7 @@ func runC15(res *hx.Result, rng *hx.Rng, tier string, outdir string) {
 	// ---- concurrent histories (child process) ----
 	runHistories(res, cf, rng, outdir, nHist, unsync)
 	runDirect(res, cf, rng, outdir, tier, unsync)
+	runSubs(res, cf, rng, outdir, tier)
 	cf.Flush()
 	if tier == "thorough" {
 		raceDetectorRun(res, outdir, repo, unsync)
